@@ -109,7 +109,8 @@ def law_qr(ch):
     stab = ch.boolean("stabilized")
     via = ch.choice(["sr", "ar"], "via")
     if via == "sr":
-        q, r = must(sr.linalg.qr, x, stabilized=stab, what="qr")
+        q, r = must(sr.linalg.qr, x, what="qr",
+                    **({"stabilized": True} if stab else {}))
     elif stab:
         q, _, r = must(ar.do, "qr_stabilized", x, what="qr_stabilized")
     else:
